@@ -158,16 +158,14 @@ def progPread (off n : Nat) : List Sys := [.pread .shared off n]
 def progDupSeekRead (off n : Nat) : List Sys :=
   [.dup .shared, .lseek (.alias 0) off, .read (.alias 0) n, .close (.alias 0)]
 
-/-- `read_range(off, n)` after the repair, as a syscall program on a file of `len` bytes:
-    `read_exact_at` is a loop `while !buf.is_empty() { pread(rest, pos) }` that stops with an error
-    when a `pread` returns 0 bytes; on a regular file a `pread` returns `min(n, len - off)` bytes.
-    So: no syscall for `n = 0`; one `pread` when the range lies inside the file; otherwise a short
-    `pread` followed by one at end-of-file that returns nothing (error). -/
+/-- `read_range(off, n)` as a syscall program on a file of `len` bytes (code after commits
+    c8a06a9f and 7ce9b171): the range is validated first against the size recorded at open (and,
+    if it does not fit, against a fresh `fstat`, which touches no offset and is not modelled as a
+    step) – a range that is not inside the file is an error before any read; then
+    `read_exact_at`, a loop `while !buf.is_empty() { pread(rest, pos) }`: no syscall for `n = 0`,
+    one `pread` for a range inside a regular file. -/
 def progReadRange (len off n : Nat) : List Sys :=
-  if n = 0 then []
-  else if off + n ≤ len then [.pread .shared off n]
-  else if off < len then [.pread .shared off n, .pread .shared len (off + n - len)]
-  else [.pread .shared off n]
+  if n = 0 ∨ len < off + n then [] else [.pread .shared off n]
 
 /-- what `read_exact(_at)` makes of the chunks the syscalls returned: their concatenation;
     `none` (an `Err`) if a syscall failed or returned no bytes (end of file). -/
@@ -176,6 +174,10 @@ def readExactResult : List (Option Bytes) → Option Bytes
   | none :: _ => none
   | some [] :: _ => none
   | some b :: rest => (readExactResult rest).map (b ++ ·)
+
+/-- result of `read_range(off, n)`: the range check, then `read_exact_at` on the syscall outputs -/
+def readRangeResult (len off n : Nat) (o : List (Option Bytes)) : Option Bytes :=
+  if off + n ≤ len then readExactResult o else none
 
 /-- the schedule in which call 0 returns call 1's bytes when both run `progDupSeekRead` -/
 def raceSchedule : List Nat := [0, 0, 1, 1, 0, 0, 1, 1]
@@ -310,7 +312,7 @@ def handle (args : List String) : String :=
       match normalise sfd raw with
       | none => "unnormalisable"
       | some p =>
-        let res := match readExactResult (sequentialOut (patFile len) [p] 0) with
+        let res := match readRangeResult len off n (sequentialOut (patFile len) [p] 0) with
           | none => "err"
           | some b => hexBytes b
         s!"{showProg p} iso={isolated p} modelled={p == progReadRange len off n} out={res}"
